@@ -59,6 +59,9 @@ MUTANTS = [
     ("C05", "detect", "cli/commands/run/context.py", "            and event.status in (Status.FAILURE, Status.ERROR)", "            and event.status in (Status.FAILURE,)", "an errored phase leaves the exit code at 0"),
     ("C06", "detect", "transport/prepare.py", "        return unquote(urljoin(base_url, quote(path)))", "        return urljoin(base_url, quote(path))", "path values double-encoded on the wire"),
     ("C06", "detect", "transport/prepare.py", "        if not base_url.endswith(\"/\"):\n            base_url += \"/\"", "        pass", "last segment of the base path dropped when the base URL has no trailing slash"),
+    ("C06", "detect", "transport/wsgi.py", "            \"query_string\": case.query,", "            \"query_string\": None,", "WSGI transport drops the query"),
+    ("C06", "detect", "transport/requests.py", "                final_headers[\"Content-Type\"] = media_type", "                final_headers[\"Content-Type\"] = \"application/json\"", "Content-Type always application/json"),
+    ("C06", "detect", "transport/requests.py", "            serializer = self._get_serializer(media_type)", "            serializer = self._get_serializer(\"application/json\")", "body always serialized as JSON"),
     # ---- C07
     ("C07", "detect", FIL, "return any(filter_.match(ctx) for filter_ in self._includes)", "return all(filter_.match(ctx) for filter_ in self._includes)", "includes combined with all"),
     ("C07", "detect", FIL, "        return all(matcher.match(ctx) for matcher in self.matchers)", "        return any(matcher.match(ctx) for matcher in self.matchers)", "matchers of one filter combined with any"),
